@@ -154,4 +154,29 @@ theorem sum_rollDiceS (hs : List (Hist Int)) (hpos : ∀ h ∈ hs, total h ≠ 0
     intro us _
     simp [rollDiceS, rollHistS, hT]
 
+/-! ### pools with zero-total dice -/
+
+/-- dice that ask the generator at all -/
+def liveDice (hs : List (Hist Int)) : List (Hist Int) := hs.filter fun h => decide (total h ≠ 0)
+
+/-- **exactly one answer per die with a positive total, none for a zero-total die**: whatever the
+pool, `p.roll()` hands on the stream with exactly that many answers removed from its front -/
+theorem rollDiceS_rest (hs : List (Hist Int)) (us : List Nat) (hlen : (liveDice hs).length ≤ us.length) :
+    (rollDiceS hs us).2 = us.drop (liveDice hs).length := by
+  induction hs generalizing us with
+  | nil => simp [rollDiceS, liveDice]
+  | cons h hs ih =>
+    by_cases hT : total h = 0
+    · have hl : liveDice (h :: hs) = liveDice hs := by simp [liveDice, hT]
+      rw [hl] at hlen ⊢
+      simp only [rollDiceS, rollHistS, if_pos hT]
+      exact ih us hlen
+    · have hl : liveDice (h :: hs) = h :: liveDice hs := by simp [liveDice, hT]
+      rw [hl] at hlen ⊢
+      cases us with
+      | nil => simp at hlen
+      | cons u us =>
+        simp only [rollDiceS, rollHistS, if_neg hT, List.length_cons, List.drop_succ_cons]
+        exact ih us (by simpa using hlen)
+
 end Dyce
